@@ -42,6 +42,19 @@ type Analysis struct {
 
 	callers map[*FuncInfo][]*Site
 	walked  bool
+	// ncalls: syntactic call sites per function (for inlining decisions)
+	ncalls map[*FuncInfo]int
+	// noPureInline: pure functions whose inlining gives nothing (no counting terms)
+	noPureInline map[*FuncInfo]bool
+}
+
+// inlinable: a private, non-recursive helper with exactly one call site and a moderate body.
+func (a *Analysis) inlinable(fn *FuncInfo) bool {
+	a.computePurity()
+	if a.ncalls[fn] != 1 || ast.IsExported(fn.Decl.Name.Name) {
+		return false
+	}
+	return stmtCount(fn.Decl.Body) <= 80
 }
 
 func newAnalysis(p *Program) *Analysis {
@@ -190,6 +203,10 @@ func (a *Analysis) computePurity() {
 				if f, ok := obj.(*types.Func); ok {
 					if fi := a.Prog.Funcs[f.Origin()]; fi != nil {
 						callees[fn] = append(callees[fn], fi)
+						if a.ncalls == nil {
+							a.ncalls = map[*FuncInfo]int{}
+						}
+						a.ncalls[fi]++
 						return true
 					}
 					id := a.extID(f)
